@@ -45,7 +45,7 @@ set_option maxHeartbeats 4000000 in
 theorem microStep_prog {s s' : State} {th : Th} {ch ch2 : Nat} {op : MOp} {rest : List MOp} {o : Out}
     (hs : microStep s th ch ch2 op rest = some (s', o)) :
     (∃ pushed, s'.prog th = pushed ++ rest ∧ ∀ op' ∈ pushed, Pushes op op') ∨
-    (∃ e t, s'.prog th = [.raise e t]) ∨ s'.prog th = [] := by
+    ((∃ e t, s'.prog th = [.raise e t]) ∧ op.isCar = false) ∨ (s'.prog th = [] ∧ op.isCar = false) := by
   cases op <;> simp only [microStep] at hs
   all_goals (try (split at hs))
   all_goals (try (split at hs))
@@ -56,15 +56,15 @@ theorem microStep_prog {s s' : State} {th : Th} {ch ch2 : Nat} {op : MOp} {rest 
   all_goals (try (obtain ⟨rfl, -⟩ := hs))
   all_goals (simp only [if_true, State.setProg, upd])
   all_goals (first
-    | (refine Or.inr (Or.inl ⟨_, _, rfl⟩); done)
-    | (refine Or.inr (Or.inr rfl); done)
+    | (refine Or.inr (Or.inl ⟨⟨_, _, rfl⟩, rfl⟩); done)
+    | (refine Or.inr (Or.inr ⟨rfl, rfl⟩); done)
     | (refine Or.inl ⟨[], rfl, ?_⟩; simp; done)
     | (refine Or.inl ⟨[_], rfl, ?_⟩; simp [Pushes]; done)
     | (refine Or.inl ⟨[_, _], rfl, ?_⟩; simp [Pushes]; done)
     | (refine Or.inl ⟨_, rfl, ?_⟩; simp [Pushes]; done)
     | (exact Or.inl ⟨_, rfl, f2⟩)
     | (exact Or.inl ⟨_, rfl, fun _ h => Or.inr h⟩)
-    | (exact Or.inr (Or.inr trivial))
+    | (exact Or.inr (Or.inr ⟨trivial, rfl⟩))
     | skip)
 
 /-! ### programs that the socket thread starts when a message arrives -/
@@ -136,7 +136,7 @@ theorem pushes_dspFree {op op' : MOp} (h : op.isDsp = false) (hp : Pushes op op'
 
 theorem dspFree_micro {s s' : State} {th : Th} {ch ch2 : Nat} {op : MOp} {rest : List MOp} {o : Out}
     (h : dspFree (op :: rest)) (hs : microStep s th ch ch2 op rest = some (s', o)) : dspFree (s'.prog th) := by
-  rcases microStep_prog hs with ⟨pushed, hp, hpu⟩ | ⟨e, t, hp⟩ | hp
+  rcases microStep_prog hs with ⟨pushed, hp, hpu⟩ | ⟨⟨e, t, hp⟩, -⟩ | ⟨hp, -⟩
   · rw [hp, dspFree_append]
     exact ⟨fun op' ho => pushes_dspFree (h op List.mem_cons_self) (hpu op' ho), fun op' ho => h op' (List.mem_cons_of_mem _ ho)⟩
   · rw [hp]; intro op' ho; simp only [List.mem_singleton] at ho; subst ho; rfl
@@ -232,7 +232,7 @@ theorem dspInv_micro {s s' : State} {th : Th} {ch ch2 : Nat} {op : MOp} {rest : 
     rw [hown]
     by_cases e : th' = th
     · subst e
-      rcases microStep_prog hs with ⟨pushed, hp, hpu⟩ | ⟨e, t, hp⟩ | hp
+      rcases microStep_prog hs with ⟨pushed, hp, hpu⟩ | ⟨⟨e, t, hp⟩, -⟩ | ⟨hp, -⟩
       · rw [hp] at hm
         rcases List.mem_append.1 hm with h1 | h1
         · exact h.own th' op n (by rw [hprog]; exact List.mem_cons_self) (pushes_hdlSrc (hpu op' h1) hsrc)
